@@ -26,6 +26,9 @@ type C16Case struct {
 	// Limit: the server's MaxMessageBytes (0: none). A message over the limit must come back from Close as 552 -
 	// whatever octets happen to sit at the limit - and one that fits must arrive as without a limit.
 	Limit int64 `json:"limit,omitempty"`
+	// LSess: the backend's sessions ALSO implement LMTPSession although the server speaks SMTP (a backend shared by an
+	// SMTP and an LMTP listener): it is the server's mode that decides, one reply per message
+	LSess bool `json:"lmtp_session_backend,omitempty"`
 }
 
 // envelopes: characters that mean something to fmt, to the path grammar or to xtext must arrive as given
@@ -43,8 +46,11 @@ var c16Envelopes = []struct {
 func evalC16(c C16Case) *h.Finding {
 	var f *h.Finding
 	desc := fmt.Sprintf("lmtp=%t body=%q cuts=%v reject=%t envelope=%d", c.LMTP, c.Body, c.Cuts, c.Reject, c.Env)
+	if c.LSess {
+		desc += " (backend sessions implement LMTPSession too)"
+	}
 	cfg := h.Config{LMTP: c.LMTP, MaxMessageBytes: c.Limit}
-	be := &h.Backend{}
+	be := &h.Backend{LMTPSess: c.LSess}
 	want := ref.DotStuffNormalize(c.Body)
 	over := c.Limit > 0 && int64(len(want)) > c.Limit
 	if c.Limit > 0 {
@@ -296,7 +302,7 @@ func C16(tier string) int {
 		maxTok = 7
 	}
 	tokens := []string{".", "\n", "\r\n", "a"}
-	run.Rule = fmt.Sprintf("all message bodies of <=%d tokens over {'.', LF, CRLF, 'a'} (and the empty body) x partitions into Write calls {one Write, one octet per Write, every 2-split} x server verdict {accept, reject} x {SMTP, LMTP}, cycling through 5 envelopes (plain; '%' in sender and recipients; atext specials; the null sender; mixed case with recipients differing in case only and an address literal), each a complete real-client -> real-server conversation in a synctest bubble (a client waiting for a reply that never comes is reported by the runtime as a deadlock). Distinct by construction; non-trivial = body contains '.' or a line break. Oracle: backend octets == ref.DotStuffNormalize(body) then EOF; envelope as given; Close returns the server's verdict; a second Close returns an error, writes nothing and causes no reply; the connection stays in step. Every body also against a server with MaxMessageBytes = every value 1..message size (one Write, accepting backend): over the limit Close returns 552 and the backend never sees a complete message, at the limit the message arrives intact. Long sessions: {12 messages x 3 recipients, 2 x 60, 3 messages of 400 lines, 40 short messages} over ONE connection (many times the line limit and the buffer sizes in both directions). Labelled supplement: seeded random 8-bit bodies.", maxTok)
+	run.Rule = fmt.Sprintf("all message bodies of <=%d tokens over {'.', LF, CRLF, 'a'} (and the empty body) x partitions into Write calls {one Write, one octet per Write, every 2-split} x server verdict {accept, reject} x {SMTP, LMTP}, cycling through 5 envelopes (plain; '%' in sender and recipients; atext specials; the null sender; mixed case with recipients differing in case only and an address literal), each a complete real-client -> real-server conversation in a synctest bubble (a client waiting for a reply that never comes is reported by the runtime as a deadlock). Distinct by construction; non-trivial = body contains '.' or a line break. Oracle: backend octets == ref.DotStuffNormalize(body) then EOF; envelope as given; Close returns the server's verdict; a second Close returns an error, writes nothing and causes no reply; the connection stays in step. Every body also against a server with MaxMessageBytes = every value 1..message size (one Write, accepting backend): over the limit Close returns 552 and the backend never sees a complete message, at the limit the message arrives intact. Every body also against an SMTP server whose backend sessions implement LMTPSession as well. Long sessions: {12 messages x 3 recipients, 2 x 60, 3 messages of 400 lines, 40 short messages} over ONE connection (many times the line limit and the buffer sizes in both directions). Labelled supplement: seeded random 8-bit bodies.", maxTok)
 	run.Assumptions = []string{"CR occurs only as part of CRLF (as the statement requires)", "an empty body arrives as a single CRLF ('final CRLF ensured')"}
 	var bodies [][]byte
 	var rec func(cur []byte, n int)
@@ -332,6 +338,17 @@ func C16(tier string) int {
 						run.Outcome("violation:" + f.Sig)
 					}
 				}
+			}
+		}
+		// an SMTP server whose backend sessions implement LMTPSession as well
+		for _, rej := range []bool{false, true} {
+			c := C16Case{Body: b, Reject: rej, Env: i % len(c16Envelopes), LSess: true}
+			f := evalC16(c)
+			run.Eval(true)
+			if f != nil {
+				c.Show = fmt.Sprintf("%q", b)
+				run.Violate("c16", c, f, func() *h.Finding { return evalC16(c) })
+				run.Outcome("violation:" + f.Sig)
 			}
 		}
 		// against a server with a size limit: every limit from 1 to the message size
